@@ -193,8 +193,8 @@ CONDITIONS = [
      'tiers': {'quick': {'bounds': {'L': 2, 'OPS': _QOPS}, 'timeout': 400,
                          'shards': [{'kind': k, 'first': f} for k in range(5) for f in [None] + _QOPS],
                          'witness_shard': {'kind': 2, 'first': _o('O', 0)}},
-               'thorough': {'bounds': {'L': 3, 'OPS': _TOPS}, 'timeout': 6000,
-                            'shards': [{'kind': k, 'first': f} for k in range(5) for f in [None] + _TOPS],
+               'thorough': {'bounds': {'L': 3, 'OPS': _QOPS}, 'timeout': 6000,
+                            'shards': [{'kind': k, 'first': f} for k in range(5) for f in [None] + _QOPS],
                             'witness_shard': {'kind': 2, 'first': _o('O', 0)}}}},
     {'fn': 'ordinals', 'nontrivial': 'tenth-call',
      'what': 'up to 12 calls of one output alias (ordinals >= 10), replay with a different count',
